@@ -159,10 +159,11 @@ fn main() {
     let tier = run.tier();
     run.rule("families of value-equal representations {(n*10^k, s+k)}; every member must feed a call-by-call identical stream to a recording Hasher (hence identical SipHash-2-4/1-3 and Fx-style hashes) and the family must collapse in a HashSet; non-trivial = a member that differs in representation from the family's reference; families are distinct by construction (distinct normalised bases)");
     run.assume("a Hasher may distinguish different splits of the same bytes across write calls, so the call sequence is compared, not only the concatenation");
-    let nmax: i64 = tier.pick(3000, 30000);
-    let kmax: u64 = tier.pick(8, 25);
+    let nmax: i64 = tier.pick(3000, 300_000);
+    let kmax: u64 = tier.pick(8, 30);
+    let smax: i128 = tier.pick(6, 9);
     run.bound("S1_unscaled_max", nmax);
-    run.bound("S1_scales", "-6..=6");
+    run.bound("S1_scales", format!("-{0}..={0}", smax));
     run.bound("S1_extra_trailing_zeros", kmax);
 
     // S1: every base n (not divisible by 10) in range, scales -6..6, members with k = 0..kmax extra zeros
@@ -172,7 +173,7 @@ fn main() {
             return t;
         }
         for sign in [1i64, -1] {
-            for s in -6i128..=6 {
+            for s in -smax..=smax {
                 let base = Dec::new(i as i64 * sign, s);
                 check_family(&run, &family(&base, 0..=kmax), &mut t);
             }
